@@ -233,6 +233,7 @@ def evidence(ctx, spec_all, results, kres):
     fns, stubs, progs, solver_ms, max_ms, unknown, witnesses, replayed = {}, {}, [], 0, 0, 0, 0, 0
     distinct = set()
     range_map = []
+    cross, cross_inc = 0, 0
     for res in results + kres:
         if "error" in res:
             continue
@@ -260,6 +261,10 @@ def evidence(ctx, spec_all, results, kres):
                 max_ms = max(max_ms, o.get("ms", 0))
                 if o["verdict"] not in ("sat", "unsat"):
                     unknown += 1
+                if o.get("verdict2") in ("sat", "unsat") and not o["folded"]:
+                    cross += 1
+                elif o.get("verdict2"):
+                    cross_inc += 1
                 if not o["folded"] and len(samples) < 12 and o["kind"] in ("violation", "panic") and (evals % 7 == 0 or len(samples) < 3):
                     samples.append({"program": res["program"], "harness": h["harness"], "label": o["label"], "kind": o["kind"],
                                     "verdict": o["verdict"], "ms": o.get("ms", 0)})
@@ -278,13 +283,13 @@ def evidence(ctx, spec_all, results, kres):
             "obligations": obls, "discharged": discharged, "folded": folded, "solver_decided": solved,
             "reachability_witnesses": witnesses, "witnesses_replayed_natively": replayed,
             "states": max(1, solved), "transitions": max(1, evals), "traces_validated_against_impl": replayed + len(ctx.violations) + len(ctx.known),
-            "programs": len(progs), "disagreements_checked": solved if ctx.tier == "thorough" else 0,
+            "programs": len(progs), "disagreements_checked": cross, "cross_check_inconclusive": cross_inc,
             "program_list": progs,
             "functions_encoded": [{"fn": k, "instrs": v} for k, v in sorted(fns.items())][:400],
             "stubs": stubs,
             "bounds": PROPS[ctx.prop].get("bounds_text", {}),
             "range_over_map_sites": sorted(set(range_map))[:50],
-            "solver": {"primary": "z3 4.8.12", "second": "z3 5.1.0 (thorough tier)", "total_ms": solver_ms, "max_ms": max_ms, "inconclusive": unknown},
+            "solver": {"level_G": "z3 4.8.12 primary (C06: z3 5.1.0), z3 5.1.0 fallback; thorough: cross-check by the other one", "level_K": "z3 5.1.0 primary, z3 4.8.12 fallback; thorough: cross-check by z3 4.8.12 (20 s cap, inconclusive = not cross-checked)", "total_ms": solver_ms, "max_ms": max_ms, "inconclusive": unknown},
             "pipeline_observations": [{"name": o["name"], "mode": o["mode"], "functions": o.get("funcs"), "failures": o.get("failures")} for o in getattr(ctx, "observations", [])],
             "known_findings_reported": [list(k[:3]) for k in ctx.known],
             "errors": ctx.errors[:20],
